@@ -131,7 +131,12 @@ theorem mass_range_bounds (specs : List Spectrum) (h0 : specs ≠ [])
   · exact absurd h h0
   · exact h
 
-example : ([⟨1, 1, none, [100, 200], [1, 2]⟩] : List Spectrum) ≠ [] := by simp
+example : let specs : List Spectrum := [⟨1, 1, none, [100, 200], [1, 2]⟩, ⟨2, 1, some 7, [150], [4]⟩]
+    specs ≠ [] ∧ (∀ s ∈ specs, s.mz ≠ []) ∧ (∀ s ∈ specs, Incr s.mz) ∧ massRange specs = (some 100, some 200) := by
+  refine ⟨by simp, by simp, ?_, by decide +kernel⟩
+  intro s hs
+  simp only [List.mem_cons, List.not_mem_nil, or_false] at hs
+  rcases hs with rfl | rfl <;> simp only [Incr] <;> norm_num
 
 /-- Specification of binning: with strictly increasing bin edges `b₀ < b₁ < …`, width `w ≥ 0`, and
 every m/z of the pixel inside `[b₀, b_last + w)`, the bins `[b_k, b_{k+1})` (last: `[b_last,
@@ -143,6 +148,15 @@ theorem bins_partition (mz it : List Rat) (b : Rat) (r : List Rat) (w : Rat) (hw
   obtain ⟨l, hl⟩ : ∃ l, (b :: r).getLast? = some l := ⟨_, List.getLast?_eq_some_getLast (by simp)⟩
   rw [binSpec_sum mz it b r w hw hb l hl]
   exact windowSum_all mz it hlen (hin l hl)
+
+example : (0 : Rat) ≤ 1 ∧ Incr (100 :: [101, 102]) ∧
+    (∀ l, (100 :: [101, 102] : List Rat).getLast? = some l → ∀ x ∈ ([100, 201/2, 102] : List Rat), 100 ≤ x ∧ x < l + 1) ∧
+    binSpec [100, 201/2, 102] [1, 2, 4] [100, 101, 102] 1 = [3, 0, 4] := by
+  refine ⟨by norm_num, by simp only [Incr]; norm_num, ?_, by decide +kernel⟩
+  intro l hl x hx
+  simp at hl; subst hl
+  simp only [List.mem_cons, List.not_mem_nil, or_false] at hx
+  rcases hx with rfl | rfl | rfl <;> norm_num
 
 /-- a single peak is counted by exactly one bin (the bins' indicator sums to one) -/
 theorem peak_in_one_bin (m : Rat) (b : Rat) (r : List Rat) (w : Rat) (hw : 0 ≤ w)
@@ -179,8 +193,14 @@ theorem bins_partition_partial (mz it bins : List Rat) (w : Rat) (hs : Incr mz)
   rw [hlen, clip_of_lt _ _ (denseIdx_lt _ _ hd)]
   exact reduceat_dense mz it bins w hs hlen hd htop
 
-example : Incr [100, 201/2, 405/4, 102] ∧ dense [100, 201/2, 405/4, 102] [100, 101, 102] = true := by
-  refine ⟨by simp only [Incr]; norm_num, by decide +kernel⟩
+example : Incr [100, 201/2, 405/4, 102] ∧ dense [100, 201/2, 405/4, 102] [100, 101, 102] = true ∧
+    (∀ l, ([100, 101, 102] : List Rat).getLast? = some l → ∀ x ∈ ([100, 201/2, 405/4, 102] : List Rat), x < l + 1) ∧
+    binSpectrum [100, 201/2, 405/4, 102] [1, 2, 4, 8] [100, 101, 102] = [3, 4, 8] := by
+  refine ⟨by simp only [Incr]; norm_num, by decide +kernel, ?_, by decide +kernel⟩
+  intro l hl x hx
+  simp at hl; subst hl
+  simp only [List.mem_cons, List.not_mem_nil, or_false] at hx
+  rcases hx with rfl | rfl | rfl | rfl <;> norm_num
 
 /-- the unrepaired mechanism on the documented input: `mz = [100,200,300,400]`, `it = [1,2,4,8]`,
 bins `[100, 250, 260, 400, 550]` (width 150 irrelevant here): the empty bin `[250,260)` reports the
